@@ -327,6 +327,23 @@ def check_plane(fx, R, cq, cname, f):
                                                                                 ', %s more than once' % bad[2] if bad[2] else '', ', %s out of range' % bad[3] if bad[3] else '', cname), fx.rel(L['loc']), 'E-STEP')
         else:
             R.holds('N6', linst, 'subscripts %s cover 0..k-1 exactly once for k = 3, 4, 7, 30' % [str(e_) for e_ in subs_], fx.rel(L['loc']), 'E-STEP')
+    # ---- N8: no tolerance shortcut around the eigen-decomposition (the property is scale-free) -----------------------------
+    from .. import earlyexit
+    top = f['body']['s'] if f.get('body') and f['body'].get('k') == 'Compound' else []
+    dec_i = next((i_ for i_, x_ in enumerate(top) if x_.get('k') == 'Expr' and 'eigenSolver_.compute' in pp(x_['e'])), None)
+    if dec_i is None:
+        R.undecided('N8', inst + ':shortcut', 'eigenSolver_.compute(...) is not a top-level statement of planeEstimation_')
+    else:
+        exits = earlyexit.exits_before(top, dec_i)
+        for (node, ctext, tol) in exits:
+            if tol:
+                R.violated('N8', short_fn(cq.split('<')[0]) + '::planeEstimation_:shortcut', 'planeEstimation_ returns before the eigen-decomposition when `%s` (%s): the quantifier bounds only the RELATIVE eigen-gap of '
+                           'the neighbourhood, not its size, so a finely sampled or small-unit cloud (all neighbours within a radius whose square is below the constant) takes the shortcut and its normal is whatever the '
+                           'shortcut stores, not the direction of least variance; exact-plane normals and rotation equivariance are lost there [%s]' % (ctext, tol, cname), fx.rel(node['loc']), 'E-STATE')
+            else:
+                R.undecided('N8', inst + ':shortcut', 'returns before the eigen-decomposition when `%s`; whether that condition is exact for the inputs of the quantifier is not decided' % ctext)
+        if not exits:
+            R.holds('N8', inst + ':shortcut', 'no return before eigenSolver_.compute(...)', loc, 'E-STATE')
     eigs = [s for s in st if s[0] == 'expr' and isinstance(s[1], tuple) and s[1][:2] == ('.compute', 'this.eigenSolver_')]
     vals = ('expr', ('=', 'this.eigenValues_', ('.eigenvalues', 'this.eigenSolver_')))
     vecs = ('expr', ('=', 'this.eigenVectors_', ('.eigenvectors', 'this.eigenSolver_')))
@@ -341,8 +358,30 @@ def check_plane(fx, R, cq, cname, f):
     ctor = [g for g in fx.functions.values() if g.get('ctor') and g.get('cls') == cq and len(g['params']) == 1 and not g.get('copyctor')]
     if len(ctor) == 1:
         inits = {i.get('field'): deep_unwrap(sx(i['e'])) for i in ctor[0]['inits'] if i.get('field')}
-        okc = inits.get('numberOfNeighborPoints_') == 'numberOfNeighborPoints' and isinstance(inits.get('neighborIndexes_'), tuple) and k in inits['neighborIndexes_'] \
+        okc = isinstance(inits.get('neighborIndexes_'), tuple) and k in inits['neighborIndexes_'] \
             and isinstance(inits.get('neighborSquareDistances_'), tuple) and k in inits['neighborSquareDistances_']
+        # N7: the neighbourhood size the estimator stores is the one it was given, for every k of the quantifier
+        kinit = inits.get('numberOfNeighborPoints_')
+        pname = ctor[0]['params'][0]['name']
+        D_ = dim_of(cq)
+        badk = whyk = None
+        if kinit is not None:
+            for kk in range(3, 31):
+                try:
+                    got_ = mini.Step(deep_unwrap).ev(kinit, {pname: kk, 'CARTESIAN_DIM': D_, 'POINT_SIZE': D_, 'this.CARTESIAN_DIM': D_})
+                except mini.Unsupported as e_:
+                    whyk = str(e_)
+                    break
+                if got_ != kk:
+                    badk = badk or (kk, got_)
+        if kinit is None or whyk:
+            R.undecided('N7', cname + ':stored-k', 'initialiser of numberOfNeighborPoints_ not interpretable: %s' % (whyk or 'absent'))
+        elif badk:
+            R.violated('N7', short_fn(cq.split('<')[0]) + ':stored-k', 'constructed with k = %d the estimator stores numberOfNeighborPoints_ = %s (initialiser %s, DIM = %d): the covariance is then taken over %s neighbours, '
+                       'so the normal is not the direction of least variance of the %d nearest neighbours; k = %d is inside the quantifier (k in 3..30) [%s]' % (
+                           badk[0], badk[1], kinit, D_, badk[1], badk[0], badk[0], cname), fx.rel(ctor[0]['loc']), 'E-STEP')
+        else:
+            R.holds('N7', cname + ':stored-k', 'numberOfNeighborPoints_ equals the constructor argument for k = 3..30', fx.rel(ctor[0]['loc']), 'E-STEP')
         R.form(okc, 'N3', cname + ':buffers', 'index/distance buffers are not sized with the number of neighbours: %s' % ({n_: inits.get(n_) for n_ in ('neighborIndexes_', 'neighborSquareDistances_')},),
                 'buffers sized k', fx.rel(ctor[0]['loc']), 'E-STATE')
 
